@@ -9,6 +9,7 @@ int main(int argc, char** argv)
   Runtime::ScopeGuard guard(argc, argv);
   verif::Spec spec; spec.property = "C00"; spec.harness = "selftest";
   spec.rule = "all (n,k) with n<40,k<25; non-trivial if n>0";
+  spec.case_timeout_s = 3; // self test only
   const char* inj = std::getenv("SELFTEST_INJECT");
   std::string inject = inj ? inj : "";
   return verif::run(spec, argc, argv, [&](verif::Ctx& c) {
@@ -22,6 +23,7 @@ int main(int argc, char** argv)
       if(inject == "fail" && n == 7 && k == 3) c.fail("injected n=7 k=3", "injected failure");
       if(inject == "crash" && n == 9 && k == 4) { XABORTM("injected abort"); }
       if(inject == "segv" && n == 11 && k == 5) { volatile int* p = nullptr; *p = 1; }
+      if(inject == "hang" && n == 13 && k == 6) { for(volatile long q = 0;; ++q) {} }
       if(n == 3 && k == 3) { int r = c.run_forked([&]{ XABORTM("expected"); }); c.check(r == SIGABRT, "dies", "expected abort did not happen"); }
       if(n > 0) c.nontrivial(verif::Hash().pod(n).pod(k).get());
       c.outcome(std::to_string((n * k) % 5));
